@@ -8,12 +8,12 @@ namespace JP.Lemmas
 open JP JP.Pointer JP.RelPointer
 
 /-- Side conditions under which the text of a relative pointer is inside the modelled fragment:
-    suffix tokens within the index limits and free of backslashes, no trailing blank in the
-    suffix text (the constructor strips it), and origin/offset short enough for CPython's `int()`. -/
+    suffix tokens within the index limits and free of backslashes (with escape decoding on, a backslash
+    in the *text* is an escape, not a character of the token), and origin/offset short enough for
+    CPython's `int()`. Blank space at the end of the suffix is part of its last token. -/
 structure RelOk (r : RelSpec) : Prop where
   tokRange : ∀ t ∈ r.suffix, TokInRange t
   noBackslash : ∀ t ∈ r.suffix, t.contains '\\' = false
-  noTrailingBlank : strip (spellTokens r.suffix) = spellTokens r.suffix
   originShort : (natStr r.origin).length ≤ maxStrDigits
   offsetShort : (natStr r.offset.natAbs).length ≤ maxStrDigits
 
@@ -31,7 +31,7 @@ def applyText (dec : EscDec) (ue : Bool) (relText baseText : Str) : Res (List Pa
 
 theorem rel_print_parse (dec : EscDec) (ue : Bool) (r : RelSpec) (hok : RelOk r) :
     (RelPointer.parse dec ue (specText r)).map toStr = .ok (specText r) := by
-  rw [parse_specText dec ue r hok.tokRange hok.noBackslash hok.noTrailingBlank hok.originShort
+  rw [parse_specText dec ue r hok.tokRange hok.noBackslash hok.originShort
     hok.offsetShort]
   show Except.ok (toStr _) = _
   rw [toStr_specText]
@@ -44,7 +44,7 @@ theorem rel_apply_spec (dec : EscDec) (ue : Bool) (r : RelSpec) (base : List Str
   have happ : applyText dec ue (specText r) (spellTokens base) =
       applyTo dec ue ⟨r.origin, r.offset, sufOf r⟩ (base.map tokPart) := by
     unfold applyText
-    rw [parse_specText dec ue r hok.tokRange hok.noBackslash hok.noTrailingBlank hok.originShort
+    rw [parse_specText dec ue r hok.tokRange hok.noBackslash hok.originShort
       hok.offsetShort,
       parse_spellTokens dec ue base hbase.tokRange
         (fun _ => spellTokens_no_backslash hbase.noBackslash)]
@@ -54,10 +54,22 @@ theorem rel_apply_spec (dec : EscDec) (ue : Bool) (r : RelSpec) (base : List Str
   | none => rfl
   | some ts =>
     simp only
-    rw [fromParts_tokPart dec ue ts
-      (specApply_no_backslash hs hbase.noBackslash hok.noBackslash)]
+    rw [fromParts_tokPart_noesc dec ts]
     show Except.ok (tokens _) = _
     rw [tokens_map_key]
+
+/-- The same for a base pointer that exists already (parsed earlier, built from parts, the result of a previous
+    application): its tokens may hold any characters, backslashes included - they are not decoded again. -/
+theorem rel_apply_parts (dec : EscDec) (ue : Bool) (r : RelSpec) (base : List Str)
+    (hneg : ∀ t ∈ base, ∀ i, parseIndexToken t = some i → 0 ≤ i) :
+    applyTo dec ue ⟨r.origin, r.offset, sufOf r⟩ (base.map tokPart) =
+      match specApply r base with
+      | some ts => .ok (ts.map Part.key)
+      | none => .error .relIndex := by
+  rw [applyTo_tokPart dec ue r base hneg]
+  cases specApply r base with
+  | none => rfl
+  | some ts => exact fromParts_tokPart_noesc dec ts
 
 theorem rel_refusals (r : RelSpec) (base : List Str) :
     specApply r base = none ↔
